@@ -740,7 +740,17 @@ def ref_flagpred(ctx: Ctx) -> RuleResult:
         for t, v in ch:
             if any(t is ft[0] for ft in flag_tests):
                 continue
-            attrs = sorted({x.attr for x in ast.walk(t) if isinstance(x, ast.Attribute) and is_xn(ctx, ctx.type_of(call, x.value))})
+            # local names of the test are read through their definitions (is_hidden = node.resource == ...)
+            exprs = [t]
+            seen_n: Set[str] = set()
+            for _ in range(2):
+                for e_ in list(exprs):
+                    for x in ast.walk(e_):
+                        if isinstance(x, ast.Name) and x.id in env_vars and x.id not in seen_n and x.id != kw:
+                            seen_n.add(x.id)
+                            exprs.append(env_vars[x.id])
+            attrs = sorted({x.attr for e_ in exprs for x in ast.walk(e_)
+                            if isinstance(x, ast.Attribute) and is_xn(ctx, ctx.type_of(call, x.value))})
             if not attrs:
                 continue
             okk = attrs == ["setup"] and norm_src(t).startswith("not ") and not v is False
@@ -1131,6 +1141,17 @@ def ref_rewire(ctx: Ctx) -> RuleResult:
                             r.violate(f"BaseDAG.compose: a reference found in '{walked[1]}' is written into '{wrote[1]}[{norm_src(w.targets[0].slice)}]'",
                                       f.loc(w), "the reference that pointed at the replaced input stays in place (dangling id) and another slot is "
                                       "overwritten", norm_src(w))
+    # every occurrence of the replaced input is rewired: the loops that walk the references are not left early
+    for fld, n, tests, new_id in sites:
+        for lp in iter_own_nodes(f.node):
+            if isinstance(lp, (ast.For, ast.While)) and any(n is x for x in own_walk(lp)):
+                early = [x for x in own_walk(lp) if isinstance(x, (ast.Break, ast.Return))]
+                if early:
+                    r.ob(False, {"field": fld, "loop left early by": norm_src(early[0])})
+                    r.violate(f"BaseDAG.compose: the loop that rewires '{fld}' is left after the first match", f.loc(early[0]),
+                              "a node that uses the replaced input twice (f(p, p), or two unpacked parts of it) keeps one reference to the "
+                              "old id, which the composed DAG does not hold: KeyError / None at run time", norm_src(early[0]))
+                    break
     same = len(olds) <= 1
     r.ob(same, {"all fields compare with": sorted(olds)})
     if not same:
@@ -1377,7 +1398,130 @@ def ref_seedact(ctx: Ctx) -> RuleResult:
     return r
 
 
+def ref_wrapdict(ctx: Ctx) -> RuleResult:
+    """update_wrapper on a node / DAG object does not merge the wrapped function's attributes into the object.
+
+    The fields of a (non-slotted) dataclass instance live in its __dict__; functools.update_wrapper, by default, UPDATES that
+    __dict__ with the function's own: an attribute of the user's function named like a field (debug, setup, tag, priority, ...)
+    silently replaces the configuration the decorator was given."""
+    r = RuleResult("REF-WRAPDICT")
+    n = 0
+    for f in pkg_funcs(ctx):
+        for call, q in ctx.calls_in(f):
+            d = dotted(call.func) or ""
+            if not (d.endswith("update_wrapper") or q == "ext:functools.update_wrapper") or not call.args:
+                continue
+            t = ctx.type_of(f, call.args[0])
+            cq = t[1] if t and t[0] in ("cls", "inst") and len(t) > 1 else None
+            if cq is None and t and t[0] == "union":
+                cq = next((x[1] for x in t[1] if x and x[0] in ("cls", "inst")), None)
+            if cq is None or cq not in ctx.P.classes:
+                # not an object of the package (e.g. the user's functools.partial, given the attributes of the function it wraps)
+                r.ob(True, {"in": f.short, "wraps": norm_src(call.args[0]), "package object": False})
+                continue
+            cls = ctx.P.classes[cq]
+            fields = sorted(ctx.P.all_fields(cls))
+            n += 1
+            upd = next((k.value for k in call.keywords if k.arg == "updated"), call.args[3] if len(call.args) > 3 else None)
+            ok = upd is not None and isinstance(upd, (ast.Tuple, ast.List)) and not upd.elts
+            r.ob(ok, {"in": f.short, "wraps": cls.name, "fields in __dict__": len(fields), "updated=": norm_src(upd) if upd is not None else "(default: __dict__)"})
+            if not ok and upd is None:
+                r.violate(f"{f.short}: update_wrapper merges the function's __dict__ into the {cls.name} it decorates", f.loc(call),
+                          f"a function attribute named like one of the {len(fields)} fields ({', '.join(fields[:6])}, ...) replaces the value the "
+                          "decorator was given: a plain @xn on a function carrying .debug = True is a debug node and never runs; "
+                          "xn(existing_node, setup=True) keeps the old node's options", norm_src(call))
+            elif not ok:
+                raise Undecided(f"{f.short}: 'updated' argument of update_wrapper not recognised: {norm_src(upd)}")
+    r.require(n >= 2, f"only {n} update_wrapper calls on package objects")
+    return r
+
+
+def ref_funcopy(ctx: Ctx) -> RuleResult:
+    """The callable a node runs is the object the user passed: wherever a node is rebuilt from asdict(node) - which deep-copies
+    every field value - the function is restored from the node itself, uncopied."""
+    r = RuleResult("REF-FUNCOPY")
+    sites = []
+    for f in pkg_funcs(ctx):
+        for n in iter_own_nodes(f.node):
+            if isinstance(n, ast.Assign) and isinstance(n.targets[0], ast.Name) and isinstance(n.value, ast.Call) \
+                    and (dotted(n.value.func) or "").split(".")[-1] == "asdict" and len(n.value.args) == 1 \
+                    and is_xn(ctx, ctx.type_of(f, n.value.args[0])):
+                sites.append((f, n))
+    r.require(len(sites) >= 3, f"only {len(sites)} asdict(node) sites found")
+    for f, n in sites:
+        vals = n.targets[0].id
+        subj = norm_src(n.value.args[0])
+        restores = [x for x in iter_own_nodes(f.node) if isinstance(x, ast.Assign) and isinstance(x.targets[0], ast.Subscript)
+                    and dotted(x.targets[0].value) == vals and const_str(x.targets[0].slice) == "exec_function"]
+        ok = len(restores) >= 1 and all(norm_src(x.value) == f"{subj}.exec_function" for x in restores)
+        r.ob(ok, {"in": f.short, "field values from": norm_src(n.value), "function restored as": [norm_src(x.value) for x in restores] or None})
+        if not ok:
+            copied = [x for x in restores if isinstance(x.value, ast.Call) and (dotted(x.value.func) or "").endswith("copy")]
+            r.violate(f"{f.short}: the node rebuilt from asdict({subj}) runs a deep copy of the user's callable", f.loc(copied[0] if copied else n),
+                      "asdict deep-copies field values: a bound method is re-bound to a clone of its object and a functools.partial to "
+                      "clones of its arguments - the user's callable is never entered; state it keeps (a counter, a log, a connection) is "
+                      "per call site: three calls of xn(counter.next) return (1, 1, 1), plain Python returns (1, 2, 3)",
+                      norm_src(copied[0]) if copied else norm_src(n))
+    return r
+
+
+def ref_resulttry(ctx: Ctx) -> RuleResult:
+    """UsageExecNode.result applies the key path the user wrote without catching what that indexing raises.
+
+    'The id is absent from the results' (-> None) is decided by a membership test on the id, never by catching KeyError / IndexError
+    around the indexing: a missing key of the USER's dict would then read as None and the dependent node would start on it."""
+    r = RuleResult("REF-RESULTTRY")
+    f = ctx.method("UsageExecNode", "result")
+    tries = [n for n in iter_own_nodes(f.node) if isinstance(n, ast.Try)]
+    bad = []
+    for t in tries:
+        body_folds = any((isinstance(x, ast.Call) and dotted(x.func) in ("reduce", "functools.reduce")) or isinstance(x, ast.Subscript)
+                         or (isinstance(x, ast.Attribute) and x.attr == "__getitem__") for st in t.body for x in ast.walk(st))
+        if body_folds and t.handlers:
+            bad.append(t)
+    r.ob(not bad, {"key path applied inside a try with handlers": bool(bad), "try statements": len(tries)})
+    if bad:
+        h = bad[0].handlers[0]
+        r.violate("UsageExecNode.result: the key path is applied inside a try that handles " + (norm_src(h.type) if h.type is not None else "everything"),
+                  f.loc(bad[0]),
+                  "an exception raised by the indexing the user wrote (a key the dependency's dict lacks, an index out of range) is turned into "
+                  "None: the dependent node is entered with a value its dependency never produced instead of the call failing",
+                  norm_src(h)[:100])
+    return r
+
+
+def ref_stubexec(ctx: Ctx) -> RuleResult:
+    """Splice: how an explicit argument of a nested DAG reaches the inner nodes.
+
+    If it is forwarded by a node that has to be EXECUTED (an identity function), that hidden node is cut by a root selection
+    (it does not descend from the roots): the inner nodes then read None for a constant, for another argument of the caller or
+    for a setup result - values the same pipeline written flat keeps, because there they are results known before the run."""
+    r = RuleResult("REF-STUBEXEC")
+    sp = _splice(ctx)
+    f = sp.fn
+    base = ctx.P.classes[ctx.cls_q("ExecNode")]
+    fam = {c.qualname for c in ctx.P.subclasses(base.qualname)}
+    stubs = []
+    for n in own_walk(sp.block):
+        if isinstance(n, ast.Call) and ctx.T.resolve_callee(f, n) in fam:
+            fn = next((k.value for k in n.keywords if k.arg == "exec_function"), None)
+            if isinstance(fn, ast.Lambda) and len(fn.args.args) == 1 and isinstance(fn.body, ast.Name) and fn.body.id == fn.args.args[0].arg:
+                stubs.append(n)
+    r.ob(not stubs, {"identity nodes created per explicit argument": len(stubs)})
+    if stubs:
+        r.violate(f"{f.short} splice: explicit arguments are forwarded by executable identity nodes", f.loc(stubs[0]),
+                  "executor(root_nodes=R) keeps R and what depends on R: the hidden node of an argument that does not descend from R is cut, "
+                  "and the inner nodes receive None for it - ((4, None), (None, 4, None)) where the hand-flattened DAG returns "
+                  "((4, 10), ('MODEL', 4, 1)); the same node also takes part in the priority race with the user's nodes",
+                  norm_src(stubs[0])[:120])
+    return r
+
+
 RULES = {
+    "REF-STUBEXEC": ref_stubexec,
+    "REF-RESULTTRY": ref_resulttry,
+    "REF-FUNCOPY": ref_funcopy,
+    "REF-WRAPDICT": ref_wrapdict,
     "REF-SAMENODE": ref_samenode, "REF-NONEKEY": ref_nonekey, "REF-SEEDACT": ref_seedact,
     "REF-STABLEID": ref_stableid,
     "REF-DEREF": ref_deref, "REF-KEY": ref_key, "REF-FIELDS": ref_fields, "REF-ASDICT": ref_asdict, "REF-MAT": ref_mat,
